@@ -107,6 +107,9 @@ func genHeapCase(pos bool) func(t *rapid.T) HeapCase {
 			n := rapid.OneOf(rapid.IntRange(0, 15), rapid.IntRange(0, 40)).Draw(t, "dn")
 			c.Data = genVec(t, "dv", n)
 			c.Spare = rapid.IntRange(0, 7).Draw(t, "spare")
+			if vk.Rare(t, "hugeCap", 25) {
+				c.Spare = rapid.SampledFrom([]int{65536, 65537, 70000, 131073}).Draw(t, "hugeSpare")
+			}
 		}
 		c.Ops = rapid.SliceOfN(genHOp(kinds), 0, vk.MaxOps(t, 60, 400)).Draw(t, "ops")
 		if c.Mode == "G" && rapid.IntRange(0, 7).Draw(t, "big") == 0 {
